@@ -124,6 +124,28 @@ def decodeSetOpt (gunzip : Gz) (depth : Nat) : Option (List UInt8) → SetOut
   | none => ⟨[], some .typeError, 0, 0⟩
   | some data => decodeSet gunzip depth data
 
+/-! ## A whole fetch response: the response decoder, then every message set iterated -/
+
+/-- the message set of one decoded partition entry `[topic, partition, error, highwater, set]` -/
+def partSet : Val → Option (Option (List UInt8))
+  | .list [_, _, _, _, .mset d] => some d
+  | _ => none
+
+/-- the message sets of a decoded fetch response, in order -/
+def fetchSets : Val → List (Option (List UInt8))
+  | .list parts => parts.filterMap partSet
+  | _ => []
+
+/-- total cost of `decode_fetch_response` + iterating every `messages` generator, and the total
+    number of bytes obtained from gunzip; `none` when the response decoder itself raised (its cost
+    is then the first component). -/
+def fetchTotal (gz : Gz) (depth : Nat) (v : Int) (bs : List UInt8) : Nat × Option Nat :=
+  match run (decodeFetch v) bs with
+  | .err _ k => (k, none)
+  | .ok val _ k =>
+    let outs := (fetchSets val).map (decodeSetOpt gz depth)
+    (k + (outs.map (·.cost)).sum, some (outs.map (·.gz)).sum)
+
 /-! ## Independent encoder (Kafka protocol guide: MessageSet, Message v0/v1) -/
 
 /-- `w` bytes, big-endian, of `n mod 256^w`. -/
